@@ -24,7 +24,7 @@ dro_to_roc
 """
 import ast
 
-from .common import (AnalysisError, Finding, RuleResult, ntext, walk_no_nested, call_name)
+from .common import (AnalysisError, Finding, RuleResult, ntext, walk_no_nested, call_name, accum)
 
 RULE = 'R32'
 TEXT = ('mix_support pairs each expectation set with its own scenario set and scales it by that '
@@ -150,14 +150,16 @@ def run(repo):
         ntext(sup_calls[0].func.value).replace(' ', '') in ('left<=0', '(left<=0)')
     rec(dr, 'support constraint: (left <= 0).le_to_rc(mixed_support)', ok,
         'the moment-dual support constraint must be (left <= 0).le_to_rc(mixed_support)')
-    first_left = [v for v in binds.get('left', []) if ntext(v) == 'alpha @ p']
+    first_left = [v for v in binds.get('left', []) if ntext(v) == 'alpha @ p']   # noqa
     rec(dr, 'support constraint starts from alpha @ p', len(first_left) == 1,
         'the support constraint must start from alpha @ p')
-    augs = [n for n in walk_no_nested(dr.node) if isinstance(n, ast.AugAssign) and ntext(n.target) == 'left']
+    augs = [n for n in walk_no_nested(dr.node) if (accum(n) or (None,))[0] == 'left']
+    augs = [n for n in augs if 'beta' in ntext(accum(n)[1])]
+    if len(augs) != 1:
+        raise AnalysisError('dro_to_roc: expected one accumulation of the beta terms into `left`, found %d' % len(augs))
     ok = False
     if len(augs) == 1:
-        v = augs[0].value
-        cur = augs[0]
+        v = accum(augs[0])[1]
         jvar = None
         for n in walk_no_nested(dr.node):
             if isinstance(n, ast.For) and any(x is augs[0] for x in n.body) and 'num_event' in ntext(n.iter):
@@ -174,8 +176,12 @@ def run(repo):
     if not sloops or not rights:
         raise AnalysisError('dro_to_roc: scenario loop / right-hand side not found')
     svar = ntext(sloops[0].target)
-    ok = all(('alpha[%s]' % svar) in ntext(r) for r in rights) and any('beta[:, event_indices]' in ntext(r)
-                                                                       for r in rights)
+    # definitions of `right`: every non-accumulating one starts from alpha[s]; the beta term is added in
+    # a definition or in an accumulation  right = right + ..
+    r_acc = [accum(n)[1] for n in walk_no_nested(dr.node) if (accum(n) or (None,))[0] == 'right']
+    r_base = [r for r in rights if not (isinstance(r, ast.BinOp) and any(r.right is a or r.left is a for a in r_acc))]
+    ok = bool(r_base) and all(('alpha[%s]' % svar) in ntext(r) for r in r_base) and \
+        any('beta[:, event_indices]' in ntext(r) for r in r_base + r_acc)
     rec(dr, 'scenario inequality uses alpha[s] (+ z @ beta[:, event_indices])', ok,
         'the right-hand sides %s must be alpha[%s] plus, when the scenario belongs to expectation events, '
         '(z @ beta[:, event_indices]).sum()' % ([ntext(r) for r in rights], svar))
